@@ -130,6 +130,9 @@ def run_json(ids, cls, kind, tmp):
     table = [list(HDR)] + rows
     for name, wfn, rkw in (('tojson', lambda s: etl.tojson(table, s), {}),
                            ('tojson(lines)', lambda s: etl.tojson(table, s, lines=True), {'lines': True}),
+                           ('tojson(ensure_ascii=False)', lambda s: etl.tojson(table, s, ensure_ascii=False), {}),
+                           ('tojson(lines, ensure_ascii=False)', lambda s: etl.tojson(table, s, lines=True, ensure_ascii=False), {'lines': True}),
+                           ('tojson(lines, sort_keys, separators)', lambda s: etl.tojson(table, s, lines=True, sort_keys=True, separators=(',', ':')), {'lines': True}),
                            ('tojsonarrays', lambda s: etl.tojsonarrays(table, s), {'arrays': 'data'}),
                            ('tojsonarrays(output_header)', lambda s: etl.tojsonarrays(table, s, output_header=True), {'arrays': 'all'})):
         tgt = iolib.Target(kind, tmp, 'j')
@@ -219,6 +222,54 @@ def check_boundaries(chk, tmp, full):
                               {'kind': 'boundary', 'fmt': fmt, 'enc': enc, 'dialect': dialect, 'source': kind, 'pad': pad})
             if tgt.path and os.path.exists(tgt.path):
                 os.remove(tgt.path)
+
+
+def check_view_reuse(chk, tmp):
+    """A from* view is a view of the FILE: after the file has been rewritten with other fields (other names, another
+    order, another number), the next pass of the same view object delivers the new table."""
+    import petl as etl
+    t1 = [[u'a', u'b', u'c']] + [[u'1', u'x', u'p'], [u'2', u'y', u'q']]
+    t2 = [[u'c', u'a']] + [[u'r', u'7'], [u's', u'8'], [u't', u'9']]
+    t3 = [[u'\ufeffa', u'b']] + [[u'\ufeffz', u'1']]
+    fmts = [('csv', lambda t, p, **k: etl.tocsv(t, p, encoding='utf-8', **k), lambda p: etl.fromcsv(p, encoding='utf-8')),
+            ('csv(default encoding)', lambda t, p, **k: etl.tocsv(t, p, **k), lambda p: etl.fromcsv(p)),
+            ('tsv', lambda t, p, **k: etl.totsv(t, p, encoding='utf-8', **k), lambda p: etl.fromtsv(p, encoding='utf-8')),
+            ('pickle', lambda t, p, **k: etl.topickle(t, p, **k), lambda p: etl.frompickle(p)),
+            ('json', lambda t, p, **k: etl.tojson(t, p), lambda p: etl.fromjson(p)),
+            ('json(lines)', lambda t, p, **k: etl.tojson(t, p, lines=True), lambda p: etl.fromjson(p, lines=True))]
+    for name, w, r in fmts:
+        path = os.path.join(tmp, 'reuse_%s.dat' % name.split('(')[0])
+        try:
+            w(t1, path)
+            v = r(path)
+            p1 = [tuple(x) for x in v]
+            w(t2, path)
+            p2 = [tuple(x) for x in v]
+            w(t3, path)
+            p3 = [tuple(x) for x in v]
+            res = (p1, p2, p3)
+        except Exception as e:
+            res = 'raised %r' % (e,)
+        want = tuple([tuple(x) for x in t] for t in (t1, t2, t3))
+        chk.count(('view-reuse', name))
+        chk.replayed += 1
+        if res != want:
+            chk.violation({'op': 'from' + name.split('(')[0], 'format': name, 'kind': 'view-reuse'},
+                          '%s: one from* view iterated after the file was written with three different tables delivered %r, the tables are %r'
+                          % (name, res, want), {'kind': 'view-reuse', 'fmt': name})
+        # write_header=False where the first CELL starts with the BOM character
+        if name.startswith('csv') or name == 'tsv':
+            try:
+                w(t3, path, write_header=False)
+                back = [tuple(x) for x in (etl.fromcsv if name != 'tsv' else etl.fromtsv)(path, encoding='utf-8', header=[u'h1', u'h2'])]
+                wantb = [(u'h1', u'h2')] + [tuple(x) for x in t3[1:]]
+                if back != wantb:
+                    chk.violation({'op': 'from' + name.split('(')[0], 'format': name, 'kind': 'view-reuse'},
+                                  '%s written without header, first cell starting with U+FEFF: read back %r, table %r' % (name, back, wantb),
+                                  {'kind': 'view-reuse', 'fmt': name})
+            except Exception as e:
+                chk.violation({'op': 'from' + name.split('(')[0], 'format': name, 'kind': 'view-reuse'}, '%s (no header, U+FEFF cell) raised %r' % (name, e),
+                              {'kind': 'view-reuse', 'fmt': name})
 
 
 def check_sources(chk):
@@ -360,6 +411,7 @@ def run(tier, seed):
                     continue
                 check_byte_concat(chk, cls, enc, DIALECTS[ci % len(DIALECTS)], tmp)
         check_boundaries(chk, tmp, full)
+        check_view_reuse(chk, tmp)
     check_sources(chk)
     chk.sample({'kind': 'store-history', 'history': sel[0]})
     traces = record_traces(1500 if full else 250, seed)
